@@ -20,6 +20,9 @@ type c01Target struct {
 	OKStat  int           `json:"ok_status"`
 	OKLat   time.Duration `json:"ok_latency"`
 	Relapse bool          `json:"relapse"` // fails again after its first success
+	// RelapseFor > 0: the relapse lasts that many probes, then the target passes again (a target
+	// that turns healthy twice must not count for two)
+	RelapseFor int `json:"relapse_for,omitempty"`
 }
 
 type c01Scenario struct {
@@ -50,7 +53,7 @@ func (t c01Target) script() func(n int, at time.Duration) ProbeAct {
 			if len(t.Fails) > 0 {
 				kind = t.Fails[len(t.Fails)-1]
 			}
-		case t.Relapse && n > len(t.Fails):
+		case t.Relapse && n > len(t.Fails) && (t.RelapseFor == 0 || n <= len(t.Fails)+t.RelapseFor):
 			kind = "500"
 		default:
 			return ProbeAct{Status: t.OKStat, Delay: t.OKLat}
@@ -103,8 +106,11 @@ func c01Gen(rng *rand.Rand, idx int) c01Scenario {
 			t.Never = true
 			anyNever = true
 		}
-		if !t.Never && nNew >= 2 && i == 0 && rng.IntN(5) == 0 {
+		if !t.Never && nNew >= 2 && i == 0 && rng.IntN(3) == 0 {
 			t.Relapse = true
+			if rng.IntN(2) == 0 {
+				t.RelapseFor = 1 + rng.IntN(2)
+			}
 		}
 		if k > maxK {
 			maxK = k
